@@ -312,7 +312,9 @@ Definition spec_allometry (T : templates) (c : allo_case) : option (list stmt) :
 Definition check_allo (T : templates) (c : allo_case) : list nat :=
   let ref_envs := map (fun m => set_env m (lc_var c) (lc_ref c)) (lc_envs c) in
   tag3 (oprogs_agree 2 (lc_envs c ++ ref_envs) (lc_syms c) (spec_allometry T c) (lc_after c)) 51 ++
-  tag3 (progs_agree 2 ref_envs (lc_syms c) (lc_before c) (lc_after c)) 52.
+  tag3 (progs_agree 2 ref_envs (lc_syms c) (lc_before c) (lc_after c)) 52 ++
+  tag3 (stmts_agree 2 (map env_of (lc_envs c ++ ref_envs))
+          (add_allometry T (lc_var c) (lc_ref c) (lc_params c) (lc_before c)) (lc_after c)) 7.
 
 (* ---------------------------------------------------------------------------------------------------- *)
 (* CovariateEffect.categorical on generated count tables (template only)                                *)
@@ -378,8 +380,14 @@ Record iov_case := mkIov {
   vc_occ : id;
   vc_etas : list (id * list (Q * id));  (* requested eta, [(occasion level, new IOV eta)] *)
   vc_syms : list id;
-  vc_envs : list (list (id * Q))
+  vc_envs : list (list (id * Q));
+  vc_items : list (id * id)             (* IOV_n, ETAI_n of each requested eta (same order as vc_etas) *)
 }.
+
+Definition iov_items (c : iov_case) : list iov_item :=
+  map (fun p : (id * list (Q * id)) * (id * id) =>
+         {| ie_eta := fst (fst p); ie_iov := fst (snd p); ie_etai := snd (snd p); ie_levels := snd (fst p) |})
+      (combine (vc_etas c) (vc_items c)).
 
 Definition shift_env (c : iov_case) (m : list (id * Q)) : list (id * Q) :=
   fold_left (fun acc (p : id * list (Q * id)) =>
@@ -413,12 +421,68 @@ Definition check_iov (c : iov_case) : list nat :=
       (vc_syms c) in
   tag3 (if existsb (Nat.eqb 1) per then 1 else if existsb (Nat.eqb 2) per then 2 else 0) 37 ++
   tag (declarations_fresh (vc_before c) (vc_after c)) 38 ++
+  (* 8 / 9: hand models of add_iov and remove_iov, statement by statement *)
+  tag3 (stmts_agree 2 (map env_of (vc_envs c)) (add_iov (vc_occ c) (iov_items c) (vc_before c)) (vc_after c)) 8 ++
   match vc_removed c with
-  | Some r => tag3 (progs_agree 2 (vc_envs c) (vc_syms c) (vc_before c) r) 39
+  | Some r => tag3 (progs_agree 2 (vc_envs c) (vc_syms c) (vc_before c) r) 39 ++
+              tag3 (stmts_agree 2 (map env_of (vc_envs c))
+                      (remove_iov (flat_map (fun it => map snd (ie_levels it)) (iov_items c)) (vc_after c)) r) 9
   | None => []
   end.
 
+(* ---------------------------------------------------------------------------------------------------- *)
+(* transform_blq M3/M4: statement-level hand model vs implementation (PHI interpreted by a total stand-in) *)
+(* ---------------------------------------------------------------------------------------------------- *)
+Definition blq_fi : finterp :=
+  {| fi1 := fun f x => if Pos.eqb f F_PHI then Some (Qred (x * x + x + 3)) else std_fi1 f x; fi2 := std_fi2 |}.
+Definition expr_agree_fi (fi : finterp) (need : nat) (envs : list env) (a b : expr) : nat :=
+  summarize need (map (fun r => cmp_oq (eval r fi a) (eval r fi b)) envs).
+Fixpoint stmts_agree_fi (fi : finterp) (need : nat) (envs : list env) (a b : list stmt) : nat :=
+  match a, b with
+  | [], [] => 0
+  | Assign s e :: a', Assign s' e' :: b' =>
+      if Pos.eqb s s' then
+        match expr_agree_fi fi need envs e e' with
+        | 0 => stmts_agree_fi fi need envs a' b'
+        | 1 => 1
+        | _ => match stmts_agree_fi fi need envs a' b' with 1 => 1 | _ => 2 end
+        end
+      else 1
+  | Ode am rh :: a', Ode am' rh' :: b' =>
+      if setp_eqb am am' && setp_eqb rh rh' then stmts_agree_fi fi need envs a' b' else 1
+  | _, _ => 1
+  end.
+Record blq_case := mkBlq {
+  bq_args : blq_args; bq_before : list stmt; bq_after : list stmt;
+  bq_envs : list (list (id * Q))
+}.
+Definition check_blq (c : blq_case) : list nat :=
+  match transform_blq (bq_args c) (bq_before c) with
+  | Some m => tag3 (stmts_agree_fi blq_fi 2 (map env_of (bq_envs c)) m (bq_after c)) 10
+  | None => [10]
+  end.
+
+(* ---------------------------------------------------------------------------------------------------- *)
+(* _update_numerators called on a model whose transit rates were perturbed: hand model vs implementation *)
+(* ---------------------------------------------------------------------------------------------------- *)
+Record num_case := mkNum {
+  nc_rates : list trate; nc_defs : rate_defs;
+  nc_after : list expr;                 (* full expression of each transit rate after _update_numerators *)
+  nc_envs : list (list (id * Q))
+}.
+Definition check_num (c : num_case) : list nat :=
+  let '(rates', d') := rates_after_update (nc_rates c) (nc_defs c) in
+  let envs := map env_of (nc_envs c) in
+  tag (Nat.eqb (length rates') (length (nc_after c))) 46 ++
+  flat_map (fun p : trate * expr =>
+    match rate_value d' (fst p) with
+    | Some (NInt z, den) => tag3 (expr_agree 2 envs (Div (Num z) den) (snd p)) 46
+    | _ => [46]
+    end) (combine rates' (nc_after c)).
+
 Inductive case :=
+| CNum (c : num_case)
+| CBlq (c : blq_case)
 | CIov (c : iov_case)
 | CRem (c : rem_case)
 | CSame (c : same_case)
@@ -427,6 +491,8 @@ Inductive case :=
 
 Definition verdict (T : templates) (c : case) : list nat :=
   match c with
+  | CNum c => check_num c
+  | CBlq c => check_blq c
   | CIov c => check_iov c
   | CRem c => check_rem c
   | CSame c => check_same c
